@@ -80,34 +80,34 @@ theorem parseLabels_sound (ts : List Tok) (ls : List String) (rest : List Tok) (
     exact ⟨h1, h2.trans (List.suffix_cons _ _)⟩
   · cases h
 
-theorem dur_ne_zero {n : Nat} (h : tokOk (.dur (some n)) = true) : n ≠ 0 := by
+theorem dur_ok {n : Nat} (h : tokOk (.dur (some n)) = true) : okSecs n = true := by
   simpa [tokOk] using h
 
 theorem parseOffList_sound : ∀ (ts : List Tok) (l : List Int) (rest : List Tok), Ok ts →
-    parseOffList ts = some (l, rest) → (∀ x ∈ l, x ≠ 0) ∧ rest <:+ ts := by
+    parseOffList ts = some (l, rest) → (∀ x ∈ l, okSecs x.natAbs = true) ∧ rest <:+ ts := by
   intro ts
   fun_induction parseOffList ts <;> intro l rest hok h
   case case1 ts n =>
-    cases h; have := dur_ne_zero hok.head
-    exact ⟨by intro x hx; simp at hx; subst hx; omega, suffix_cons2 _ _ _⟩
+    cases h; have := dur_ok hok.head
+    exact ⟨by intro x hx; simp at hx; subst hx; simpa using this, suffix_cons2 _ _ _⟩
   case case3 ts n =>
-    cases h; have := dur_ne_zero hok.tail.head
-    exact ⟨by intro x hx; simp at hx; subst hx; omega, suffix_cons3 _ _ _ _⟩
+    cases h; have := dur_ok hok.tail.head
+    exact ⟨by intro x hx; simp at hx; subst hx; simpa using this, suffix_cons3 _ _ _ _⟩
   case case5 ts n l' ts' hrec ih =>
-    cases h; have := dur_ne_zero hok.head
+    cases h; have := dur_ok hok.head
     obtain ⟨h1, h2⟩ := ih l' ts' hok.tail.tail hrec
     refine ⟨?_, h2.trans (suffix_cons2 _ _ _)⟩
     intro x hx; simp at hx
     rcases hx with rfl | hx
-    · omega
+    · simpa using this
     · exact h1 x hx
   case case7 ts n l' ts' hrec ih =>
-    cases h; have := dur_ne_zero hok.tail.head
+    cases h; have := dur_ok hok.tail.head
     obtain ⟨h1, h2⟩ := ih l' ts' hok.tail.tail.tail hrec
     refine ⟨?_, h2.trans (suffix_cons3 _ _ _ _)⟩
     intro x hx; simp at hx
     rcases hx with rfl | hx
-    · omega
+    · simpa using this
     · exact h1 x hx
   all_goals cases h
 
@@ -217,34 +217,59 @@ theorem parseSelector_sound (f : Nat) (name : String) (ts : List Tok) (e : Expr)
 /-- what a postfix modifier can attach to -/
 def Opd (e : Expr) : Prop := wf e = true ∧ (isOperand e = true ∨ isVec e = true)
 
-theorem addOffset_inv (e e' : Expr) (o : Int) (hi : Opd e) (h : addOffset e o = some e') : Opd e' := by
+theorem okSel_iff (s : Sel) : okSel s = true ↔
+    (s.name = "" ∨ isMetricIdent (classifyKind s.name) = true) ∧ (∀ x ∈ s.offEx, okSecs x.natAbs = true) ∧
+      s.off.natAbs ≤ maxSecs := by
+  simp [okSel, and_assoc]
+
+theorem okSecs_le {n : Nat} (h : okSecs n = true) : n ≤ maxSecs := by
+  simp [okSecs] at h; exact h.2
+
+theorem addOffset_inv (e e' : Expr) (o : Int) (ho : o.natAbs ≤ maxSecs) (hi : Opd e) (h : addOffset e o = some e') : Opd e' := by
+  obtain ⟨hw, hop⟩ := hi
   unfold addOffset at h
   repeat' split at h
   all_goals first | cases h | skip
-  all_goals simpa [Opd, wf, okSel, isOperand, isVec] using hi
+  · simp only [wf, okSel_iff] at hw
+    exact ⟨by simp only [wf, okSel_iff]; exact ⟨hw.1, hw.2.1, ho⟩, Or.inr rfl⟩
+  · simp only [wf, Bool.and_eq_true, okSel_iff] at hw
+    exact ⟨by simp only [wf, Bool.and_eq_true, okSel_iff]; exact ⟨⟨hw.1.1, hw.1.2.1, ho⟩, hw.2⟩, Or.inl rfl⟩
+  · simp only [wf, Bool.and_eq_true, decide_eq_true_eq] at hw
+    exact ⟨by simp only [wf, Bool.and_eq_true, decide_eq_true_eq]; exact ⟨hw.1, ho⟩, Or.inl rfl⟩
 
-theorem addOffsetList_inv (e e' : Expr) (l : List Int) (hl : ∀ x ∈ l, x ≠ 0) (hi : Opd e) (h : addOffsetList e l = some e') :
-    Opd e' := by
+theorem addOffsetList_inv (e e' : Expr) (l : List Int) (hl : ∀ x ∈ l, okSecs x.natAbs = true) (hi : Opd e)
+    (h : addOffsetList e l = some e') : Opd e' := by
+  obtain ⟨hw, hop⟩ := hi
   unfold addOffsetList at h
   repeat' split at h
   all_goals first | cases h | skip
-  all_goals simp [Opd, wf, okSel, isOperand, isVec] at hi ⊢
-  · exact ⟨hi.1, hi.2, fun x hx => hl x hx⟩
-  · exact ⟨⟨hi.1.1, hi.1.2, fun x hx => hl x hx⟩, hi.2⟩
-  · exact hi
+  · simp only [wf, okSel_iff] at hw
+    refine ⟨?_, Or.inr rfl⟩
+    simp only [wf, okSel_iff, List.mem_append]
+    exact ⟨hw.1, fun x hx => hx.elim (hw.2.1 x) (hl x), hw.2.2⟩
+  · simp only [wf, Bool.and_eq_true, okSel_iff] at hw
+    refine ⟨?_, Or.inl rfl⟩
+    simp only [wf, Bool.and_eq_true, okSel_iff, List.mem_append]
+    exact ⟨⟨hw.1.1, fun x hx => hx.elim (hw.1.2.1 x) (hl x), hw.1.2.2⟩, hw.2⟩
+  · exact ⟨hw, Or.inl rfl⟩
 
 theorem setAt_inv (e e' : Expr) (a : AtMod) (hi : Opd e) (h : setAt e a = some e') : Opd e' := by
+  obtain ⟨hw, hop⟩ := hi
   unfold setAt at h
   repeat' split at h
   all_goals first | cases h | skip
-  all_goals simpa [Opd, wf, okSel, isOperand, isVec] using hi
+  · exact ⟨by simpa only [wf, okSel_iff] using hw, Or.inr rfl⟩
+  · exact ⟨by simpa only [wf, Bool.and_eq_true, okSel_iff] using hw, Or.inl rfl⟩
+  · exact ⟨by simpa only [wf] using hw, Or.inl rfl⟩
 
-theorem mkRange_inv (e e' : Expr) (d st : Nat) (hd : d ≠ 0) (hst : st ≤ 1) (hi : Opd e) (h : mkRange e d st = some e') :
+theorem mkRange_inv (e e' : Expr) (d st : Nat) (hd : okSecs d = true) (hst : st ≤ 1) (hi : Opd e) (h : mkRange e d st = some e') :
     Opd e' := by
   unfold mkRange at h
   repeat' split at h
   all_goals first | cases h | skip
-  · simp [Opd, wf, isOperand, isVec] at hi ⊢; exact ⟨hi, hd⟩
+  · obtain ⟨hw, _⟩ := hi
+    simp only [wf] at hw
+    exact ⟨by simp only [wf, hw, hd, Bool.and_self], Or.inl rfl⟩
   · rename_i hnv
     obtain ⟨hw, ho⟩ := hi
     have : isOperand e = true := by
@@ -253,8 +278,8 @@ theorem mkRange_inv (e e' : Expr) (d st : Nat) (hd : d ≠ 0) (hst : st ≤ 1) (
       · cases e <;> simp [isVec] at ho
         exact absurd rfl (hnv _)
     refine ⟨?_, Or.inl rfl⟩
-    simp only [wf, hw, this, Bool.and_self, Bool.true_and, Bool.and_eq_true, bne_iff_ne, ne_eq, decide_eq_true_eq]
-    exact ⟨hd, hst⟩
+    simp only [wf, hw, this, hd, Bool.and_self, Bool.true_and, Bool.and_eq_true, decide_eq_true_eq]
+    exact ⟨hst, by simp [maxSecs]⟩
 
 theorem stepOpt_more (r : Option Expr) (ts ts' : List Tok) (e' : Expr) (h : stepOpt r ts = .more e' ts') :
     r = some e' ∧ ts = ts' := by
@@ -267,8 +292,8 @@ theorem postfixStep_sound (e : Expr) (ts : List Tok) (e' : Expr) (ts' : List Tok
   repeat' split at h
   all_goals first | cases h | skip
   all_goals (obtain ⟨h1, rfl⟩ := stepOpt_more _ _ _ _ h)
-  · exact ⟨addOffset_inv _ _ _ hi h1, suffix_cons2 _ _ _⟩
-  · exact ⟨addOffset_inv _ _ _ hi h1, suffix_cons3 _ _ _ _⟩
+  · exact ⟨addOffset_inv _ _ _ (by simpa using okSecs_le (dur_ok hok.tail.head)) hi h1, suffix_cons2 _ _ _⟩
+  · exact ⟨addOffset_inv _ _ _ (by simpa using okSecs_le (dur_ok hok.tail.tail.head)) hi h1, suffix_cons3 _ _ _ _⟩
   · rename_i heq
     obtain ⟨h2, h3⟩ := parseOffList_sound _ _ _ hok.tail.tail heq
     exact ⟨addOffsetList_inv _ _ _ h2 hi h1, h3.trans (suffix_cons2 _ _ _)⟩
@@ -276,9 +301,9 @@ theorem postfixStep_sound (e : Expr) (ts : List Tok) (e' : Expr) (ts' : List Tok
   · exact ⟨setAt_inv _ _ _ hi h1, suffix_cons3 _ _ _ _⟩
   · exact ⟨setAt_inv _ _ _ hi h1, suffix_cons3 _ _ _ _⟩
   · exact ⟨setAt_inv _ _ _ hi h1, ⟨[_, _, _, _], rfl⟩⟩
-  · exact ⟨mkRange_inv _ _ _ _ (dur_ne_zero hok.tail.head) (by omega) hi h1, suffix_cons3 _ _ _ _⟩
-  · exact ⟨mkRange_inv _ _ _ _ (dur_ne_zero hok.tail.head) (by omega) hi h1, ⟨[_, _, _, _], rfl⟩⟩
-  · exact ⟨mkRange_inv _ _ _ _ (dur_ne_zero hok.tail.head) (by omega) hi h1, ⟨[_, _, _, _, _], rfl⟩⟩
+  · exact ⟨mkRange_inv _ _ _ _ (dur_ok hok.tail.head) (by omega) hi h1, suffix_cons3 _ _ _ _⟩
+  · exact ⟨mkRange_inv _ _ _ _ (dur_ok hok.tail.head) (by omega) hi h1, ⟨[_, _, _, _], rfl⟩⟩
+  · exact ⟨mkRange_inv _ _ _ _ (dur_ok hok.tail.head) (by omega) hi h1, ⟨[_, _, _, _, _], rfl⟩⟩
 
 theorem parsePostfix_sound : ∀ (f : Nat) (e : Expr) (ts : List Tok) (e' : Expr) (rest : List Tok), Ok ts → Opd e →
     parsePostfix f e ts = some (e', rest) → Opd e' ∧ rest <:+ ts := by
